@@ -323,8 +323,8 @@ func (m *model) adoptAndCompare(o *obs, names []string) []diff {
 			add("UIDVALIDITY", "UIDVALIDITY of %q changed from %d to %d without delete", n, b.uv, ob.uidValidity)
 		}
 		for _, past := range m.pastUV[n] {
-			if past == ob.uidValidity {
-				add("UIDVALIDITY-reused", "mailbox %q has UIDVALIDITY %d again after it was deleted/renamed away and recreated", n, past)
+			if past.uv == ob.uidValidity && past.id != b.id {
+				add("UIDVALIDITY-reused", "mailbox %q has UIDVALIDITY %d, the value an earlier, different mailbox of that name had", n, past.uv)
 			}
 		}
 		// messages: adopt UIDs of new messages
@@ -458,6 +458,8 @@ type node struct {
 }
 
 type outcome struct {
+	n     *node
+	c     cmd
 	key   [16]byte
 	m     *model
 	ok    bool
@@ -480,6 +482,7 @@ var quirkList = []struct {
 }{
 	{"seq-star-resolved-against-server-count-on-stale-view", quirks{starServerCount: true}},
 	{"uid-star-is-uidnext-minus-1-not-last-message", quirks{uidStarUIDNext: true}},
+	{"uid-expunge-does-not-resolve-star", quirks{uidExpungeStar: true}},
 	{"examine-is-not-read-only", quirks{readOnlyIgnored: true}},
 	{"examine-is-not-read-only", quirks{readOnlyIgnored: true, starServerCount: true}},
 	{"examine-is-not-read-only", quirks{readOnlyIgnored: true, uidStarUIDNext: true}},
@@ -487,10 +490,66 @@ var quirkList = []struct {
 
 // judge compares one executed step with the model under quirk set q, starting from parent state.
 // It returns the resulting model and the list of differences.
+type nvCounters struct {
+	staleSeq, appendUID, copyUID, expunged, recreated, storeChanged, uidGap int64
+}
+
+var nv nvCounters
+
 func judge(parent *model, c cmd, q quirks, r reply, o *obs, universe []string) (*model, []diff) {
 	m := parent.clone()
 	ok := r.status == "OK"
 	e := m.apply(c, q, ok)
+	if q == (quirks{}) {
+		// non-vacuity counters (strict judgement only)
+		ps := &parent.sess[c.S]
+		if ps.box != nil && len(ps.pend) > 0 && !c.UID && c.Set != "" {
+			atomic.AddInt64(&nv.staleSeq, 1)
+		}
+		if e.code == "APPENDUID" && ok {
+			atomic.AddInt64(&nv.appendUID, 1)
+		}
+		if e.code == "COPYUID" && ok {
+			atomic.AddInt64(&nv.copyUID, 1)
+		}
+		removed, changed := false, false
+		parent.forEachBox(func(pb *mBox) {
+			m.forEachBox(func(nb *mBox) {
+				if nb.id != pb.id {
+					return
+				}
+				for _, g := range pb.msgs {
+					k := nb.find(g.uid)
+					if k < 0 {
+						removed = true
+					} else if nb.msgs[k].flags != g.flags {
+						changed = true
+					}
+				}
+			})
+		})
+		if removed {
+			atomic.AddInt64(&nv.expunged, 1)
+		}
+		if changed && c.Op == "STORE" {
+			atomic.AddInt64(&nv.storeChanged, 1)
+		}
+		if c.Op == "CREATE" && ok && len(parent.pastUV[c.Name]) > 0 {
+			atomic.AddInt64(&nv.recreated, 1)
+		}
+		if e.code != "" && ok && e.codeBox != nil && len(e.codeBox.msgs) > 0 {
+			// a new message arrives in a mailbox whose highest UID was expunged earlier (UID reuse would show here)
+			var hi uint32
+			for _, g := range e.codeBox.msgs {
+				if g.uid < tempUID && g.uid > hi {
+					hi = g.uid
+				}
+			}
+			if hi < e.codeBox.maxUID {
+				atomic.AddInt64(&nv.uidGap, 1)
+			}
+		}
+	}
 	var ds []diff
 	add := func(field, format string, a ...interface{}) { ds = append(ds, diff{field, fmt.Sprintf(format, a...)}) }
 	switch {
@@ -655,21 +714,26 @@ func execute(sc *scenario, n *node, c cmd) outcome {
 	}
 	r := conns[c.S].do(expandCmd(c.wire()))
 	hist := append(append([]cmd{}, n.hist...), c)
-	out := outcome{ok: r.status == "OK", leafy: c.Leaf}
+	out := outcome{n: n, c: c, ok: r.status == "OK", leafy: c.Leaf}
 	det := func(key string, ds []diff, extra string) {
 		out.viol = key
 		var dl []string
 		for _, d := range ds {
 			dl = append(dl, d.field+": "+d.text)
 		}
-		out.det = map[string]interface{}{"script": scriptOf(sc, hist), "failing_step": c.wire(), "session": c.S,
+		out.det = map[string]interface{}{"script": scriptOf(sc, hist), "scenario": sc.name, "history": hist, "failing_step": c.wire(), "session": c.S,
 			"reply": r.raw, "differences": dl, "note": extra, "server_log": srv.panics()}
 	}
 	// framing clause: exactly one tagged reply, connection open, no panic
 	if pan := srv.panics(); r.problem != "" || len(pan) > 0 {
-		pm := parent(n).clone()
-		e := pm.apply(c, quirks{}, false)
-		if (c.Op == "COPY" || c.Op == "MOVE") && e.noMatch {
+		noMatch := false
+		for _, q := range []quirks{{readOnlyIgnored: true}, {readOnlyIgnored: true, starServerCount: true}, {readOnlyIgnored: true, uidStarUIDNext: true}} {
+			pm := parent(n).clone()
+			if e := pm.apply(c, q, true); e.noMatch {
+				noMatch = true
+			}
+		}
+		if (c.Op == "COPY" || c.Op == "MOVE") && noMatch {
 			det("copy-move-of-no-message-corrupts-the-reply", nil, "the sequence set addresses no message; reply framing problem: "+r.problem)
 		} else {
 			det("crash-or-framing:"+c.Op+":"+r.problem, nil, "framing clause")
@@ -772,7 +836,7 @@ func bfs(sc *scenario) scenStats {
 				hi = len(tasks)
 			}
 			outs := make([]outcome, hi-lo)
-			vk.Parallel(hi-lo, func(i int) {
+			vk.ParallelW(workers(), hi-lo, func(i int) {
 				outs[i] = execute(sc, tasks[lo+i].n, tasks[lo+i].c)
 			})
 			for i, out := range outs {
@@ -820,6 +884,12 @@ func reportViolation(sc *scenario, out outcome) {
 	atomic.AddInt64(v.(*int64), 1)
 	if _, dup := reported.LoadOrStore(out.viol, true); dup {
 		return
+	}
+	// every counterexample is re-executed from scratch before it is printed
+	for i := 0; i < 4; i++ {
+		if again := execute(sc, out.n, out.c); again.viol != out.viol {
+			run.EngineError("counterexample for %s is not reproducible (run %d gave %q): %v", out.viol, i+2, again.viol, out.det)
+		}
 	}
 	run.Violation(out.viol, out.det)
 }
